@@ -1,7 +1,7 @@
 (* Properties/C08.v — Applying a diff to the right document reconstructs the left one. *)
 From Coq Require Import List String Bool ZArith Arith.
 From YT Require Import Base.Str Base.KV Base.Sort Model.Doc Model.Dom Model.Builder Model.Diff Model.Apply
-  Model.Path Proofs.BuilderProofs Proofs.PathProofs Proofs.ApplyProofs Proofs.FrameProofs Proofs.ApplyLookupProofs Proofs.DiffNilProofs Proofs.ReconstructProofs Proofs.ReconstructKeyedProofs Proofs.ReconstructListsProofs Proofs.RebuildExactProofs Proofs.ReconstructExactProofs.
+  Model.Path Proofs.BuilderProofs Proofs.PathProofs Proofs.ApplyProofs Proofs.FrameProofs Proofs.ApplyLookupProofs Proofs.DiffNilProofs Proofs.ReconstructProofs Proofs.ReconstructKeyedProofs Proofs.ReconstructListsProofs Proofs.RebuildExactProofs Proofs.ReconstructExactProofs Proofs.FlattenSortedProofs.
 From Coq Require Import Permutation.
 Import ListNotations.
 Local Open Scope list_scope.
@@ -147,8 +147,14 @@ Theorem C08_reconstruct_positions : forall kl kr,
 Proof. exact reconstruct_steps_exact. Qed.
 Print Assumptions C08_reconstruct_positions.
 
-(* Not proved: that the two flattened lists are equal AS LISTS (same order), which needs the
-   sortedness of Flatten's output; the Go-side oracle compares them as maps, as the property states. *)
+(* ... and as LISTS: Flatten lists positions in one canonical order (members by name, items by index),
+   so the same set of pairs is the same list.  This is the property's equation itself. *)
+Theorem C08_apply_diff_flatten : forall kl kr,
+  wf (Con kl) = true -> keys_safe (Con kl) = true -> wf (Con kr) = true -> keys_safe (Con kr) = true ->
+  compat_g (Con kl) (Con kr) -> eis (Con kl) = true ->
+  flatten (apply (Con kr) (diff (Con kl) (Con kr))) = flatten (Con kl).
+Proof. exact reconstruct_flatten_eq. Qed.
+Print Assumptions C08_apply_diff_flatten.
 
 (* non-vacuity: the pair that was reconstructed wrongly on the pinned tree, and a list of lists *)
 Example C08_ex_keyed :
